@@ -357,6 +357,20 @@ pub fn catalogue(with_c: bool) -> Vec<WorldSpec> {
         v.push(WorldSpec { arch });
     }
     if with_c {
+        // every combination of the C-carrying tables {C}, {A,C}, {B,C}, {A,B,C} (two entities each), alone and next
+        // to an {A,B} table: worlds in which the only table shared by several tasks is a C table
+        for bits in 1..16usize {
+            for ab in [0u8, 2] {
+                let mut arch = [0u8; 8];
+                for (k, m) in [4usize, 5, 6, 7].iter().enumerate() {
+                    if bits >> k & 1 == 1 {
+                        arch[*m] = 2;
+                    }
+                }
+                arch[3] = ab;
+                v.push(WorldSpec { arch });
+            }
+        }
         for (extra, kinds) in [(4usize, [2u8, 0, 0, 0]), (5, [2, 2, 0, 0]), (7, [2, 0, 2, 2]), (6, [0, 2, 2, 0]), (7, [1, 2, 2, 2])] {
             let mut arch = [0u8; 8];
             arch[extra] = kinds[0].max(2);
